@@ -31,8 +31,15 @@ type graphqlWSHandler struct {
 	Logger     logrus.FieldLogger
 
 	cancelContext func()
-	subscriptions map[string]SubscriptionSourceStream
+	subscriptions map[string]graphqlWSSubscription
 	features      graphql.FeatureSet
+}
+
+type graphqlWSSubscription struct {
+	stream SubscriptionSourceStream
+
+	// closed once the source stream has ended and no more data will be sent for the subscription
+	ended chan struct{}
 }
 
 func (h *graphqlWSHandler) HandleInit(parameters json.RawMessage) error {
@@ -75,10 +82,18 @@ func (h *graphqlWSHandler) HandleStart(id string, query string, variables map[st
 		req.Document = doc
 
 		if graphql.IsSubscription(doc, operationName) {
-			if _, ok := h.subscriptions[id]; ok {
-				// if the subscription already exists, ignore this message. should we do something
-				// else though?
-				return
+			if existing, ok := h.subscriptions[id]; ok {
+				select {
+				case <-existing.ended:
+					// the previous subscription with this id has run to completion. release it so
+					// the id can be reused
+					existing.stream.Stop()
+					delete(h.subscriptions, id)
+				default:
+					// if the subscription already exists, ignore this message. should we do
+					// something else though?
+					return
+				}
 			}
 			if sourceStream, errs := graphql.Subscribe(req); len(errs) > 0 {
 				resp = &graphql.Response{
@@ -86,7 +101,7 @@ func (h *graphqlWSHandler) HandleStart(id string, query string, variables map[st
 				}
 			} else {
 				if h.subscriptions == nil {
-					h.subscriptions = map[string]SubscriptionSourceStream{}
+					h.subscriptions = map[string]graphqlWSSubscription{}
 				}
 				sourceStreamIn := sourceStream.(*SubscriptionSourceStream)
 				// Note we can't use the request context here, because the Go http package closes it
@@ -97,7 +112,11 @@ func (h *graphqlWSHandler) HandleStart(id string, query string, variables map[st
 					sourceStreamIn.Stop()
 					cancel()
 				}
-				h.subscriptions[id] = sourceStream
+				ended := make(chan struct{})
+				h.subscriptions[id] = graphqlWSSubscription{
+					stream: sourceStream,
+					ended:  ended,
+				}
 				go func() {
 					if err := sourceStream.Run(ctx, func(event any) {
 						req := *req
@@ -108,6 +127,7 @@ func (h *graphqlWSHandler) HandleStart(id string, query string, variables map[st
 					}); err != nil && err != context.Canceled {
 						h.Logger.Error(errors.Wrap(err, "error running source stream"))
 					}
+					close(ended)
 					if err := h.Connection.SendComplete(context.Background(), id); err != nil {
 						h.Logger.Warn(errors.Wrap(err, "error sending graphql-ws complete"))
 					}
@@ -129,8 +149,8 @@ func (h *graphqlWSHandler) HandleStart(id string, query string, variables map[st
 }
 
 func (h *graphqlWSHandler) HandleStop(id string) {
-	if stream, ok := h.subscriptions[id]; ok {
-		stream.Stop()
+	if subscription, ok := h.subscriptions[id]; ok {
+		subscription.stream.Stop()
 		delete(h.subscriptions, id)
 	}
 }
@@ -144,8 +164,8 @@ func (h *graphqlWSHandler) Cancel() {
 }
 
 func (h *graphqlWSHandler) HandleClose() {
-	for _, stream := range h.subscriptions {
-		stream.Stop()
+	for _, subscription := range h.subscriptions {
+		subscription.stream.Stop()
 	}
 	h.subscriptions = nil
 
